@@ -343,7 +343,7 @@ def rtOk (R : RParser) (D : ToDom) (doc : Node) : Bool :=
   R.P.S.checkNode doc && doc.norm &&
   (match doc with
    | .elem t a ms kids =>
-     t == R.P.S.top && ms.isEmpty && attrsEq (computeAttrs (R.P.S.nodeType t).attrs []) a &&
+     t == R.P.S.top && ms.isEmpty && !(R.P.S.nodeType t).isLeaf && attrsEq (computeAttrs (R.P.S.nodeType t).attrs []) a &&
        kidsOk R D {} t none kids && lastOk {} kids
    | _ => false)
 
